@@ -154,8 +154,8 @@ def perm_of(it, key_vec):
         inv = fresh_fun('pinv', I, I)
         n = term(key_vec.n)
         nn = key_vec.n if isinstance(key_vec.n, int) else SV(key_vec.n)
-        p.assume(Forall(0, nn, lambda k: mk(z3.And(0 <= pi(k.t), pi(k.t) < n, inv(pi(k.t)) == k.t,
-                                                   0 <= inv(k.t), inv(k.t) < n, pi(inv(k.t)) == k.t))))
+        p.assume(Forall(0, nn, lambda k: mk(z3.And(0 <= pi(k.t), pi(k.t) < n, inv(pi(k.t)) == k.t))))
+        p.assume(Forall(0, nn, lambda k: mk(z3.And(0 <= inv(k.t), inv(k.t) < n, pi(inv(k.t)) == k.t))))
         p.assume(Forall((0, 0), (nn, nn),
                         lambda a, b: mk(z3.Implies(a.t < b.t, term(key_vec.at(pi(a.t)), True)
                                                    <= term(key_vec.at(pi(b.t)), True))), nvars=2))
@@ -1518,7 +1518,15 @@ def _app_idx(it, f, i):
     return SV(t)
 
 
+def s_at(it, a, k):
+    x, i = a
+    if isinstance(x, (Vec, list, tuple)):
+        return getitem(it, x, i)
+    return x
+
+
 SPEC_BUILTINS = {
+    'at': s_at,
     'forall': s_forall, 'forall2': s_forall2, 'implies': s_implies, 'ite': s_ite, 'is_none': s_is_none,
     'spec_db2lin': s_db2lin, 'spec_lin2db': s_lin2db, 'iff': s_iff, 'mask_index': s_mask_index,
     'sort_perm': s_sort_perm,
